@@ -199,6 +199,11 @@ func (i *interpreter) addHashApp(app *hashApp) {
 	ps := i.ps
 	tb := i.tb
 	for _, o := range ps.hashApps {
+		if o.fam == app.fam && o.out == app.out {
+			return // the same application again (hash-consed): nothing new to relate
+		}
+	}
+	for _, o := range ps.hashApps {
 		if o.fam != app.fam {
 			continue
 		}
@@ -210,14 +215,7 @@ func (i *interpreter) addHashApp(app *hashApp) {
 			i.axiom(tb.Not(outEq))
 			continue
 		}
-		var inEq value = true
-		for k := range o.in {
-			inEq = i.andV(inEq, i.equalsV(tU8, o.in[k], app.in[k]))
-			if inEq == false {
-				break
-			}
-		}
-		ie := i.toTerm(inEq)
+		ie := i.toTerm(i.bytesEqV(o.in, app.in))
 		if ie.isConst() && ie.c != 0 && outEq.isConst() {
 			continue
 		}
